@@ -1,9 +1,127 @@
-/- C15 driver: not written yet -/
+/-
+  C15 driver: replays a history (harness/history.cpp output) through the bookkeeping of the
+  evaluator-state model (LibfiveModel/EvalState.lean): `count_simd` after every value / batch /
+  derivative / Jacobian query, `clear_vars` and the X/Y/Z seeds restored after every query, the
+  variable store and the `updateVars` report, well-formedness / closedness of every tape
+  (hypothesis `TapeOK` of the frame theorems), and — from the real feature counts — which of the
+  two hypotheses of `feature_walk_frame` fail for a feature query (`hyp …` lines).
+-/
 import Driver.Parse
+import LibfiveModel.EvalState
+import LibfiveModel.DerivFloat
+open Libfive
 
 namespace Driver.C15
 
-def run (_args : List String) (lines : Array String) : Array String :=
-  #[s!"MISMATCH driver-not-implemented {lines.size}"]
+def f32! (s : String) : Float32 := (F32.parseF32 s).getD (Float32.ofBits 0x7fc00000)
+
+structure St where
+  case : String := ""
+  q : Nat := 0
+  base : TapeM := { t := [], root := 0 }
+  nvars : Nat := 0
+  vars : List (Nat × Float32) := []      -- generator var index ↦ stored value
+  csimd : Nat := 0
+  known : Bool := false                  -- count_simd is indeterminate before the first query
+
+/-- tokens after `deck`: N X Y Z consts k (id bits)* vars m (id idx bits)* -/
+def parseVars (ws : List String) : List (Nat × Float32) :=
+  match ws.dropWhile (· != "vars") with
+  | "vars" :: m :: rest =>
+    let ra := rest.toArray
+    (List.range (nat! m)).map fun i => ((ra.getD (3*i+1) "").toInt?.getD 0 |>.toNat, f32! (ra.getD (3*i+2) ""))
+  | _ => []
+
+/-- executable `TapeOK`: well-formed, no oracle, operands are clauses of the tape or leaves of the deck -/
+def tapeOKb (base T : TapeM) : Bool :=
+  let ib := ids base.t
+  let it := ids T.t
+  wfb T.t && T.t.all (fun c => c.op != Op.oracle) && it.all (fun k => ib.contains k) &&
+  T.t.all (fun c => (it.contains c.a || !ib.contains c.a) && (it.contains c.b || !ib.contains c.b)) &&
+  (it.contains T.root || !ib.contains T.root)
+
+def handle (st : St) (line : String) : St × List String :=
+  let ws := words line
+  match ws with
+  | "case" :: k :: _ => ({ case := k }, [])
+  | "deck" :: rest =>
+    let vs := parseVars rest
+    ({ st with vars := vs, nvars := vs.length }, [])
+  | "base" :: "tape" :: rest =>
+    match parseTape rest with
+    | some T =>
+      let o := if tapeOKb T T then s!"ok tape case {st.case} q 0" else s!"MISMATCH tape case {st.case} q 0 base"
+      ({ st with base := T }, [o])
+    | none => (st, [s!"MISMATCH parse case {st.case} q 0 base"])
+  | "push" :: pk :: "depth" :: _ :: "tape" :: rest =>
+    -- `valueAndPush` evaluates one point: count_simd becomes setCount(1); interval pushes do not
+    -- touch the array evaluator
+    let st := if pk == "ppush" then { st with csimd := simdRound 16 1, known := true } else st
+    match parseTape rest with
+    | some T =>
+      if tapeOKb st.base T then (st, [s!"ok tape case {st.case} q {st.q}"])
+      else (st, [s!"MISMATCH tape case {st.case} q {st.q} pushed tape violates TapeOK"])
+    | none => (st, [s!"MISMATCH parse case {st.case} q {st.q} push"])
+  | "setvar" :: idx :: newv :: "old" :: oldv :: "changed" :: ch :: _ =>
+    let i := nat! idx
+    let x := f32! newv
+    -- `setVar` on a variable that is not in the deck does nothing and reports false
+    let present := st.vars.any (·.1 == i)
+    let stored := (st.vars.find? (·.1 == i)).map (·.2) |>.getD 0
+    -- model: both copies hold the stored value; `changed` iff it differs from the new one
+    let model := present && stored != x
+    let okOld := !present || stored.toBits == (f32! oldv).toBits
+    let vars := if present then (st.vars.filter (·.1 != i)) ++ [(i, x)] else st.vars
+    let o := if !okOld then s!"MISMATCH setvar-store case {st.case} q {st.q} model-old {F32.toHex stored} real-old {oldv}"
+      else if model == (ch == "1") then s!"ok setvar case {st.case} q {st.q}"
+      else s!"MISMATCH setvar case {st.case} q {st.q} model {model} real {ch}"
+    ({ st with vars := vars }, [o])
+  | "q" :: kind :: "depth" :: _ :: "csimd" :: cs :: "clear" :: cl :: "seeds" :: a :: b :: c :: rest =>
+    let q := st.q + 1
+    let tag := s!"case {st.case} q {q}"
+    let cs := nat! cs
+    let one := "3f800000"
+    let o1 := if cl == "0" && a == one && b == one && c == one then [] else
+      [s!"MISMATCH epilogue {tag} clear {cl} seeds {a} {b} {c}"]
+    -- number of points of a batch: token after "L"?  use the program's count: answers hold n (or 4n) tokens
+    let ans := (rest.dropWhile (· != "L")).drop 1 |>.takeWhile (· != "|")
+    let expect : Option Nat :=
+      if kind == "value" || kind == "deriv" || kind == "getbase" then some (simdRound 16 1)
+      else if kind == "values" then some (simdRound 16 ans.length)
+      else if kind == "derivs" then some (simdRound 16 (ans.length / 4))
+      else if kind == "jac" then
+        (if st.nvars = 0 then (if st.known then some st.csimd else none) else
+          let L := jacLanes 256
+          let last := if st.nvars % L = 0 then L else st.nvars % L
+          some (simdRound 16 (jacColumns last)))
+      else none
+    let o2 := match expect with
+      | some e => if e == cs then [] else [s!"MISMATCH count_simd {tag} {kind} model {e} real {cs}"]
+      | none => if cs % 16 == 0 || !st.known then [] else [s!"MISMATCH count_simd {tag} {kind} real {cs} not a SIMD multiple"]
+    let outs := o1 ++ o2
+    ({ st with q := q, csimd := cs, known := st.known || expect.isSome || kind == "features" || kind == "isinside" },
+     if outs.isEmpty then [s!"ok query {tag} {kind}"] else outs)
+  | "fc" :: "tape" :: rest =>
+    let tag := s!"case {st.case} q {st.q}"
+    let tapeToks := rest.takeWhile (· != "counts")
+    let cnt := ((rest.dropWhile (· != "counts")).drop 2).map nat! |>.toArray
+    match parseTape tapeToks with
+    | some T =>
+      let (_, bad) := featCountWalk 256 16 (fun k => cnt.getD k 0) T.t (simdRound 16 1, [])
+      let hy := bad.map fun (h, id) => s!"hyp {h} {tag} clause {id}"
+      let o := if tapeOKb st.base T then [s!"ok feature-hyps {tag} failing {bad.length}"]
+               else [s!"MISMATCH tape {tag} feature tape violates TapeOK"]
+      (st, hy ++ o)
+    | none => (st, [s!"MISMATCH parse {tag} fc"])
+  | _ => (st, [])
+
+def run (_args : List String) (lines : Array String) : Array String := Id.run do
+  let mut st : St := {}
+  let mut out : Array String := #[]
+  for l in lines do
+    let (st', o) := handle st l
+    st := st'
+    for x in o do out := out.push x
+  return out
 
 end Driver.C15
